@@ -1347,16 +1347,16 @@ class System(object, metaclass=SystemMetaclass):
             # User is setting ref/ref0, so clear scaler/adder
             scaler = None
             adder = None
-        else:
-            # User didn't provide either pair explicitly, use what's provided
-            if is_undefined(scaler):
-                scaler = None
-            if is_undefined(adder):
-                adder = None
-            if is_undefined(ref):
-                ref = None
-            if is_undefined(ref0):
-                ref0 = None
+
+        # whatever was not given (e.g. the other member of the active pair) is not set
+        if is_undefined(scaler):
+            scaler = None
+        if is_undefined(adder):
+            adder = None
+        if is_undefined(ref):
+            ref = None
+        if is_undefined(ref0):
+            ref0 = None
 
         # Convert to ndarray/float as necessary - only for values that will be used
         if ref is not None or ref0 is not None:
